@@ -133,6 +133,17 @@ fn announce_bytes(records: Vec<ResourceRecord<'static>>, r: &mut Rng) -> Result<
     p.build_bytes_vec_compressed().map_err(|e| format!("{:?}", e))
 }
 
+/// The shape of a DNS-SD browse response: the PTR record in the answer section, everything about the instance (SRV,
+/// TXT, addresses) in the additional section.
+fn browse_bytes(service: &Name<'static>, instance: &Name<'static>, records: Vec<ResourceRecord<'static>>, r: &mut Rng) -> Result<Vec<u8>, String> {
+    let mut p = Packet::new_reply(r.int(16) as u16);
+    p.answers.push(ResourceRecord::new(service.clone(), CLASS::IN, 4500, RData::PTR(instance.clone().into())));
+    let mut recs = records;
+    r.shuffle(&mut recs);
+    p.additional_records = recs;
+    p.build_bytes_vec_compressed().map_err(|e| format!("{:?}", e))
+}
+
 fn full_name(inst: &str, service: &str) -> String {
     format!("{}.{}", inst, service)
 }
@@ -223,8 +234,25 @@ pub fn history(ctx: &mut Ctx, idx: u64) {
                     recs.extend(mine);
                     ctx.count("announcements_sharing_a_packet_with_own_records");
                 }
-                log.push(format!("peer {} announces {:?}{}", k, peers[k], if mixed { " (in one packet with records of the own instance)" } else { "" }));
-                match announce_bytes(recs, &mut r) {
+                // sometimes the SRV records name a host outside the service as their target (as other mDNS stacks do): the
+                // port they carry belongs to the instance all the same
+                let foreign_target = r.chance(1, 6);
+                if foreign_target {
+                    for rec in recs.iter_mut() {
+                        if let RData::SRV(srv) = &mut rec.rdata {
+                            srv.target = Name::new(&format!("host-{}.local", k)).unwrap().into_owned();
+                        }
+                    }
+                    ctx.count("announcements_with_srv_target_outside_the_service");
+                }
+                // sometimes the packet has the shape of a browse response (PTR answer, instance records as additionals)
+                let browse = !mixed && r.chance(1, 6);
+                if browse {
+                    ctx.count("announcements_shaped_as_browse_responses");
+                }
+                log.push(format!("peer {} announces {:?}{}{}{}", k, peers[k], if mixed { " (in one packet with records of the own instance)" } else { "" },
+                    if foreign_target { " (SRV targets outside the service)" } else { "" }, if browse { " (browse-response shape)" } else { "" }));
+                match if browse { browse_bytes(&service, &fname, recs, &mut r) } else { announce_bytes(recs, &mut r) } {
                     Ok(b) => {
                         ingest(&b, &mut store, ctx, &log);
                         if !announced.contains(&k) {
